@@ -23,7 +23,7 @@ def _kwsig(op):
 
 class C13(Check):
     pid = 'C13'
-    timeout = 120.0
+    timeout = 300.0
     quick_runs = 640
     thorough_budget_s = 1200
     rule = ('one run = 2-4 seeded user workflows (construct model by Python classes or YAML, optional update_var, '
@@ -98,6 +98,8 @@ class C13(Check):
             val = 0.0 if (var != 'tau' and rng.random() < 0.3) else rng.randint(1, 40) / 16    # exactly 0 is a legal override
             ops.append({'wf': wid, 'op': 'update_var', 'obj': M, 'node_vars': {f'{node}/{opn}/{var}': val}})
         n_obs = rng.randint(1, 5 if getattr(self, '_tier', 'quick') == 'thorough' else 3)
+        if stratum == 'S-fortran':
+            n_obs = rng.randint(1, 2)
         if stratum not in ('S-fortran',) and not spec.get('circuits') and net.inst and rng.random() < 0.15:
             # a parameter sweep over a copy of the circuit (grid_search deep-copies the template it is given)
             (gnode, gop), ginst = rng.choice(list(net.inst.items()))
@@ -205,6 +207,8 @@ class C13(Check):
 
     def generate(self, rng, stratum, tier):
         K = rng.randint(2, 6 if tier == 'thorough' else 4)     # deeper histories in the thorough tier
+        if stratum == 'S-fortran':
+            K = rng.randint(2, 3)       # every observation is an f2py build (in the history and in the reference)
         flows = []
         self._tier = tier
         shared = None
